@@ -359,6 +359,9 @@ class Runner:
         violations, knowns, unrepro = [], [], []
         replay_dir = os.path.join(VERIF, "replays", pid)
         os.makedirs(replay_dir, exist_ok=True)
+        for fn in os.listdir(replay_dir):
+            if fn.startswith(self.tier + "_"):
+                os.remove(os.path.join(replay_dir, fn))
 
         def emit(kind, uid, hname, role, profile, payload):
             u = unit_by_uid.get(uid)
@@ -396,8 +399,12 @@ class Runner:
             if h and h[0].expect == "control":
                 self.inconclusive.append(f"negative control {uid}::{hn} does not type-check")
                 continue
-            if h and h[0].family == "probe":
-                continue
+            if h and h[0].note.startswith("requires:"):
+                # only meaningful when the probe harness of the same unit says the optional API exists
+                _, probe, label = h[0].note.split(":", 2)
+                po = [o for o in outcomes if o.uid == uid and o.hname == probe and o.profile == prof]
+                if not po or po[0].covers.get(label) != "Satisfied":
+                    continue
             role = (h[0].role if h else "") or u.meta.get("role", "")
             emit("api-shape", uid, hn, role, prof, {"harness_source": h[0].body if h else None, "diagnostic": msgs[0][:3000],
                                                    "detail": "harness written against the documented API does not type-check",
@@ -443,7 +450,9 @@ class Runner:
             samples.append({"unit": o.uid, "declaration": o.unit.decl, "harness": o.hname, "verdict": o.verdict})
         if not samples:
             samples.append({"note": "no harness was solved in this run"})
-        nobl = len([o for o in outcomes if o.h.expect != "control"]) + (len(rejected_valid) if plan.accept_is_obligation else 0)
+        n_valid_decl = sum(1 for u in all_units if u.meta.get("valid") is not False) * len(plan.macro_profiles)
+        n_valid_acc = n_valid_decl - len(rejected_valid)
+        nobl = len([o for o in outcomes if o.h.expect != "control"]) + (n_valid_decl if plan.accept_is_obligation else 0)
         ev = {
             "property_id": pid, "tier": self.tier, "seed": self.seed, "level": "model_checking",
             "coverage": {
@@ -452,7 +461,10 @@ class Runner:
                 "rule": plan.rule or "one evaluation = one Kani proof harness decided by CBMC/CaDiCaL for ALL values of its symbolic inputs; distinct = distinct (declaration signature, harness family, field, macro host profile); non-trivial = solver verdict SUCCESS with the end-of-harness cover SATISFIED (out-of-range harnesses: panic found and marker unreachable)",
                 "samples": samples,
                 "obligations": nobl,
-                "discharged": len(okos),
+                "discharged": len(okos) + (n_valid_acc if plan.accept_is_obligation else 0),
+                "acceptance_obligations": {"rule_valid_declarations": n_valid_decl, "accepted": n_valid_acc} if plan.accept_is_obligation else None,
+                "candidates_rule_invalid": {"generated": sum(1 for u in all_units if u.meta.get("valid") is False) * len(plan.macro_profiles), "rejected_by_macro": len(rejected_invalid),
+                                            "accepted_and_put_through_soundness_spec": sum(1 for u in all_units if u.meta.get("valid") is False) * len(plan.macro_profiles) - len(rejected_invalid)},
                 "programs": len(set((o.uid, o.profile) for o in outcomes)),
                 "exhaustive": bool(plan.exhaustive),
                 "technique": "bounded model checking (Kani 0.68 / CBMC 6.11, CaDiCaL) of the compiled macro expansion, symbolic inputs",
